@@ -56,7 +56,7 @@ func execDfragX(args []string) string {
 			} else if how == 2 {
 				cs = append(cs, rdrChunk{0, io.EOF})
 			}
-			ans := execDfrag(append(append([]string(nil), base...), "s:"+rbLens(cs)))
+			ans := dfragAnswer(append(append([]string(nil), base...), "s:"+rbLens(cs)), false)
 			add(ans)
 			n++
 			if strings.HasSuffix(ans, "v=diff") {
@@ -65,7 +65,7 @@ func execDfragX(args []string) string {
 		}
 	}
 	for k := 0; k <= L; k++ {
-		ans := execDfrag(append(append([]string(nil), base...), "s:"+rbLens([]rdrChunk{{n: k}, {0, rdrErr(7)}})))
+		ans := dfragAnswer(append(append([]string(nil), base...), "s:"+rbLens([]rdrChunk{{n: k}, {0, rdrErr(7)}})), false)
 		add(ans)
 		n++
 	}
@@ -159,6 +159,7 @@ func fragErrClass(err error) string {
 type fragRec struct {
 	sb   *strings.Builder
 	full bool
+	msgs *[]string // value level: every message handed to the listener in the canonical text of family decapi (dapiMesg)
 }
 
 func (e fragRec) OnMesgDef(d proto.MessageDefinition) {
@@ -184,6 +185,9 @@ func fragValue(v proto.Value) string {
 
 func (e fragRec) OnMesg(m proto.Message) {
 	fmt.Fprintf(e.sb, " R%d.%d.%d.%d", m.Header, m.Num, len(m.Fields), len(m.DeveloperFields))
+	if e.msgs != nil {
+		*e.msgs = append(*e.msgs, dapiMesg(&m))
+	}
 	if e.full {
 		for _, f := range m.Fields {
 			fmt.Fprintf(e.sb, "{%d %s %v}", f.Num, fragValue(f.Value), f.IsExpandedField)
@@ -196,8 +200,19 @@ func (e fragRec) OnMesg(m proto.Message) {
 
 // fragDecode runs the Next/Decode loop; the transcript holds the events, per sequence header/CRC/message count, the status
 func fragDecode(r io.Reader, chk bool, hasSize bool, size int, full bool) string {
+	s, _ := fragDecodeM(r, chk, hasSize, size, full)
+	return s
+}
+
+// fragDecodeM also returns the digest of the VALUES of every message the listener got (field numbers, base types, flags,
+// values; developer fields) — what the model rebuilds from the bytes of the fields (`apiOf`)
+func fragDecodeM(r io.Reader, chk bool, hasSize bool, size int, full bool) (string, string) {
 	var sb strings.Builder
-	rec := fragRec{&sb, full}
+	var msgs []string
+	rec := fragRec{&sb, full, nil}
+	if !full {
+		rec.msgs = &msgs
+	}
 	opts := []decoder.Option{decoder.WithMesgDefListener(rec), decoder.WithMesgListener(rec)}
 	if !full {
 		opts = append(opts, decoder.WithNoComponentExpansion())
@@ -230,10 +245,14 @@ func fragDecode(r io.Reader, chk bool, hasSize bool, size int, full bool) string
 			fmt.Fprintf(&sb, " after=%s", fragErrClass(err))
 		}
 	}
-	return status + sb.String()
+	return status + sb.String(), dapiDigest(msgs, false)
 }
 
-func execDfrag(args []string) string {
+func execDfrag(args []string) string { return dfragAnswer(args, true) }
+
+// dfragAnswer: withM = the answer carries the value digest `m=` (not inside the exhaustive sweeps of dfragx: thousands of
+// decodes per operation, whose value level is covered by `v=`)
+func dfragAnswer(args []string, withM bool) string {
 	a, ok := fragParse(args)
 	if !ok {
 		return "bad-op"
@@ -242,7 +261,10 @@ func execDfrag(args []string) string {
 	if !ok {
 		return "bad-op"
 	}
-	ans := fragDecode(r, a.chk, a.hasSize, a.size, false)
+	ans, m := fragDecodeM(r, a.chk, a.hasSize, a.size, false)
+	if withM {
+		ans += " m=" + m
+	}
 	v := "na"
 	if clean {
 		// value level: everything the listeners and Decode hand out, fragmented vs one contiguous buffer (default options)
@@ -473,6 +495,19 @@ func fragInputs(rng *Rng, n int, maxLen int) (pool [][]byte, kinds []string) {
 		default:
 			body := rng.Bytes(rng.Intn(80))
 			add("random-body", fragSeal(rng, body))
+		}
+	}
+	// complete sequence(s) followed by the first 1..13 bytes of a further file header (valid so far): the stream ends inside
+	// the header read of the next sequence — Next() / CheckIntegrity must not take that for the clean end of the stream,
+	// however the reader fragments it
+	for i := 0; i < 2+n/40; i++ {
+		b := fragSeal(rng, fragRecords(rng, 5))
+		if rng.Intn(3) == 0 {
+			b = append(b, fragSeal(rng, fragRecords(rng, 3))...)
+		}
+		next := fragSeal(rng, fragRecords(rng, 2))
+		for k := 1; k <= 13 && k < len(next); k += 1 + rng.Intn(3) {
+			add("trailing-header-prefix", append(append([]byte(nil), b...), next[:k]...))
 		}
 	}
 	return
